@@ -191,13 +191,26 @@ def handle : List String → String
       let m : MsmSpec := { hvals := hvals, cellMask := cellMask, satCols := satCols, sigCols := sigCols }
       toHex (packBits (msmBits kind m) ++ List.replicate pad 0)
     | _, _, _, _, _ => "bad-op"
-  | "range" :: w :: f :: d7 :: p7 :: rate :: rd :: d4 :: p4 :: _ =>
+  | "range" :: w :: f :: d7 :: p7 :: rate :: rd :: d4 :: p4 :: rest =>
     match w.toNat?, f.toNat?, d7.toInt?, p7.toInt?, rate.toInt?, rd.toInt?, d4.toInt?, p4.toInt? with
     | some w, some f, some d7, some p7, some rate, some rd, some d4, some p4 =>
+      -- constellation index and signal id (the carrier frequency comes from the regenerated tables)
+      let (cons, sig) := match rest with
+        | c :: s :: _ => (c.toNat?.getD 0 % 5, s.toNat?.getD 2)
+        | _ => (0, 2)
+      let table := match cons with
+        | 0 => Gen.utils_getSignalFrequencyGPS | 1 => Gen.utils_getSignalFrequencyGalileo
+        | 2 => Gen.utils_getSignalFrequencyGlonass | 3 => Gen.utils_getSignalFrequencyBeidou | _ => none
+      let freq : Option Nat := match table with
+        | some (rows, _) => (rows.lookup sig).map Int.toNat
+        | none => none
       let f64 (v : F64.Val) : String := let (neg, e, mant) := F64.ieee v; s!"{neg}/{e}/{mant}"
       let metres (s : Nat) : F64.Val := F64.mul (F64.scale2 (F64.ofInt s) (-29)) F64.cLightMs
       s!"r7={aggregateRange7 w f d7} p7={aggregatePhase7 w f p7} rate={aggregateRate7 rate rd} r4={aggregateRange4 w f d4} p4={aggregatePhase4 w f p4}" ++
-      s!" m7={f64 (metres (aggregateRange7 w f d7))} m4={f64 (metres (aggregateRange4 w f d4))} ms={f64 (F64.divConst (F64.ofInt (aggregateRate7 rate rd)) 10000)}"
+      s!" m7={f64 (metres (aggregateRange7 w f d7))} m4={f64 (metres (aggregateRange4 w f d4))} ms={f64 (F64.divConst (F64.ofInt (aggregateRate7 rate rd)) 10000)}" ++
+      (match freq with
+       | some fr => s!" c7={f64 (F64.phaseCycles (aggregatePhase7 w f p7) fr)} c4={f64 (F64.phaseCycles (aggregatePhase4 w f p4) fr)} dop={f64 (F64.dopplerHz (aggregateRate7 rate rd) fr)}"
+       | none => " c7=- c4=- dop=-")
     | _, _, _, _, _, _, _, _ => "bad-op"
   | "pipe" :: t :: h :: _ =>
     -- the pipeline delivers, to every consumer and under every schedule, the sequential segmentation
